@@ -66,18 +66,18 @@ pub fn stages(prop: &str, tier: &str) -> Vec<Stage> {
     ];
     let tiny = vec![COp::Match(4), COp::Cancel(1), COp::Amend(1, 2), COp::Add];
     let common = |v: &mut Vec<Stage>| {
-        let books6 = [Book::B1, Book::B2, Book::B3, Book::B4, Book::B5, Book::B6];
+        let books6 = [Book::B1, Book::B2, Book::B3, Book::B4, Book::B5, Book::B6, Book::B7];
         let mut wide = alpha.clone();
         wide.extend([COp::AddIce, COp::Amend(1, 0), COp::Move(2), COp::Match(1000)]);
         if quick {
-            v.push(stage("pairs of 1-op threads, wide alphabet, six books", programs_1op(2, &books6, &wide), Some(3)));
+            v.push(stage("pairs of 1-op threads, wide alphabet, seven books", programs_1op(2, &books6, &wide), Some(3)));
             v.push(stage("triples of 1-op threads, books B1-B5", programs_1op(3, &books5, &alpha), Some(2)));
             v.push(stage("pairs of 2-op threads, reduced alphabet, B1-B4", programs_2x2(&BOOKS4, &small), Some(2)));
         } else {
             // a wider alphabet for the unbounded two-thread programs: iceberg adds, amend to zero display
             // (an order that can give nothing), a second price move
-            v.push(stage("pairs of 1-op threads, wide alphabet, six books, unbounded", programs_1op(2, &books6, &wide), None));
-            v.push(stage("triples of 1-op threads, six books", programs_1op(3, &books6, &alpha), Some(3)));
+            v.push(stage("pairs of 1-op threads, wide alphabet, seven books, unbounded", programs_1op(2, &books6, &wide), None));
+            v.push(stage("triples of 1-op threads, seven books", programs_1op(3, &books6, &alpha), Some(3)));
             v.push(stage("triples of 1-op threads, reduced alphabet, B1-B4, bound 4", programs_1op(3, &BOOKS4, &small), Some(4)));
             v.push(stage("pairs of 2-op threads, full alphabet, B1-B4", programs_2x2(&BOOKS4, &alpha), Some(3)));
             v.push(stage("quadruples of 1-op threads, reduced alphabet, B1-B4", programs_1op(4, &BOOKS4, &small), Some(2)));
@@ -755,6 +755,7 @@ impl ProgramDe {
             "B3" => Book::B3,
             "B4" => Book::B4,
             "B6" => Book::B6,
+            "B7" => Book::B7,
             _ => Book::B5,
         };
         let op = |v: &Value| -> COp {
